@@ -200,6 +200,166 @@ def end_to_end(tier, seed):
                 bound='%d synthetic single-series runs (<=150 rows, <=3 sensors, W<=4, K<=4, scales 1e-6..1e6, iteration_limit 1 and 3)' % cases)
 
 
+
+# ------------------------------------------------------------------ C09 / C12 / C13 / C16: what each phase was actually given
+class _InlinePool:
+    """same interface as the pool the main loop creates; runs the task at submission in this process so that what
+    the optimiser is handed can be observed.  The library code is untouched."""
+    class _Task:
+        def __init__(self, f, a, k):
+            try:
+                self.r, self.e = f(*a, **(k or {})), None
+            except Exception as e:          # re-raised at get(), as a real pool does
+                self.r, self.e = None, e
+
+        def get(self, timeout=None):
+            if self.e is not None:
+                raise self.e
+            return self.r
+
+    def apply_async(self, f, args=(), kwds=None):
+        return _InlinePool._Task(f, args, kwds)
+
+    def close(self):
+        pass
+
+    def join(self):
+        pass
+
+    def terminate(self):
+        pass
+
+
+def phase_trace(tier, seed):
+    import fast_ticc
+    from fast_ticc import main_loop, graphical_lasso, cluster_maintenance, cluster_label_assignment
+    rng = np.random.default_rng(seed)
+    fails, cases, incomplete = [], 0, 0
+    trace = {}
+    orig = dict(pool=main_loop._init_task_pool, opt=graphical_lasso.optimize_markov_random_fields,
+                task=graphical_lasso._setup_optimization_task, rep=cluster_maintenance.repopulate_empty_clusters,
+                pred=cluster_label_assignment.predict_cluster_labels, stats=cluster_maintenance.update_all_cluster_statistics)
+
+    def opt(model, data, pool):
+        trace['rounds'].append(dict(labels=list(model.point_labels), tasks=[], data=data, biased=model.arguments.biased_covariance,
+                                    members=[list(c.member_points) for c in model.clusters]))
+        trace['order'].append('optimise')
+        return orig['opt'](model, data, pool)
+
+    def task(cluster, n, w, lam, pool):
+        trace['rounds'][-1]['tasks'].append(dict(cov=np.atleast_2d(np.array(cluster.empirical_covariance, copy=True)), mean=np.array(cluster.stacked_data_mean, copy=True),
+                                                 N=n, W=w, lam=lam))
+        return orig['task'](cluster, n, w, lam, pool)
+
+    def rep(model):
+        trace['order'].append('repopulate')
+        return orig['rep'](model)
+
+    def pred(model, data):
+        trace['order'].append('relabel')
+        out = orig['pred'](model, data)
+        trace['predicted'].append(list(out.point_labels))
+        return out
+
+    def stats(model, data):
+        trace['order'].append('statistics')
+        return orig['stats'](model, data)
+
+    main_loop._init_task_pool = lambda n: _InlinePool()
+    graphical_lasso.optimize_markov_random_fields = opt
+    graphical_lasso._setup_optimization_task = task
+    cluster_maintenance.repopulate_empty_clusters = rep
+    cluster_label_assignment.predict_cluster_labels = pred
+    cluster_maintenance.update_all_cluster_statistics = stats
+    configs = []
+    n_cfg = int(os.environ.get('PHASE_TRACE_RUNS', 0)) or (40 if tier == 'quick' else 600)
+    for i in range(n_cfg):
+        sensors, w, k = int(rng.integers(1, 3)), int(rng.integers(1, 4)), int(rng.integers(2, 6))
+        configs.append(dict(rows=int(rng.integers(60, 130)), sensors=sensors, w=w, k=k,
+                            beta=float(rng.choice([0.0, 2.0, 25.0, 400.0, 1e6])), limit=int(rng.choice([1, 2, 3, 6, 10])),
+                            biased=bool(i % 2), m=int(rng.integers(2, 6)),
+                            lam=(0.11 if i % 3 else 'matrix')))
+    try:
+        for c in configs:
+            data = synthetic(rng, c['rows'], c['sensors'], regimes=int(rng.integers(1, 4)))
+            nw = c['sensors'] * c['w']
+            lam = np.full((nw, nw), 0.07) if c['lam'] == 'matrix' else c['lam']
+            trace.clear()
+            trace.update(rounds=[], order=[], predicted=[])
+            random.seed(seed)
+            np.random.seed(seed)
+            try:
+                r = quiet(fast_ticc.ticc_labels, data, window_size=c['w'], num_clusters=c['k'], label_switching_cost=c['beta'],
+                          iteration_limit=c['limit'], min_cluster_size=c['m'], biased_covariance=c['biased'], sparsity_weight=lam)
+            except Exception:
+                incomplete += 1
+                continue            # run did not complete: outside the quantifier of every property checked here
+            cases += 1
+            bad = []
+            rounds = trace['rounds']
+            # C09: phase order and round count
+            if not (1 <= len(rounds) <= c['limit']):
+                bad.append(('C09 number of rounds outside [1, iteration_limit]', '%d rounds, limit %d' % (len(rounds), c['limit'])))
+            expect, seen = [], trace['order']
+            for n in range(len(rounds)):
+                expect += (['repopulate'] if n else []) + ['statistics', 'optimise', 'relabel']
+            if seen != expect:
+                bad.append(('C09 phases not in the order repopulate(from round 2) statistics optimise relabel', ' '.join(x[:4] for x in seen)))
+            if len(rounds) < c['limit'] and (len(trace['predicted']) < 2 or trace['predicted'][-1] != trace['predicted'][-2]):
+                bad.append(('C09 stopped before the limit without two equal consecutive labellings', ''))
+            f = (c['w'] - 1) // 2
+            if trace['predicted'] and list(r.point_labels[f:f + len(trace['predicted'][-1])]) != trace['predicted'][-1]:
+                bad.append(('C09 returned labels are not those of the final relabelling', ''))
+            for n, rd in enumerate(rounds):
+                lab = np.array(rd['labels'])
+                if len(rd['tasks']) != c['k']:
+                    bad.append(('C12 number of optimisation tasks differs from K', 'round %d: %d tasks for %d clusters' % (n + 1, len(rd['tasks']), c['k'])))
+                    continue
+                for kk, t in enumerate(rd['tasks']):
+                    rows = rd['data'][lab == kk]
+                    if sorted(rd['members'][kk]) != [int(x) for x in np.nonzero(lab == kk)[0]]:
+                        bad.append(('C13 member list is not the set of points carrying the label', 'round %d cluster %d' % (n + 1, kk)))
+                    if rows.shape[0] < 2:
+                        continue
+                    want = np.atleast_2d(np.cov(rows, rowvar=False, bias=rd['biased']))
+                    tol = 1e-9 * max(1.0, float(np.max(np.abs(want))))
+                    if t['cov'].shape != want.shape or float(np.max(np.abs(t['cov'] - want))) > tol:
+                        bad.append(('C12 covariance handed to the optimiser is not the requested covariance of the windows labelled k',
+                                    'round %d cluster %d (%s estimator, %d windows)' % (n + 1, kk, 'biased' if rd['biased'] else 'unbiased', rows.shape[0])))
+                    if float(np.max(np.abs(np.ravel(t['mean']) - rows.mean(axis=0)))) > 1e-9 * max(1.0, float(np.max(np.abs(rows)))):
+                        bad.append(('C12 mean is not the mean of the windows labelled k', 'round %d cluster %d' % (n + 1, kk)))
+                    if t['W'] != c['w'] or t['N'] != c['sensors'] or not np.array_equal(np.asarray(t['lam']), np.asarray(lam)):
+                        bad.append(('C12 W, N or lambda not passed unchanged to the optimiser', 'round %d cluster %d' % (n + 1, kk)))
+            # C16: BIC from the covariances of the LAST fit, the returned MRFs and the final labels
+            if rounds and len(rounds[-1]['tasks']) == c['k']:
+                inner = trace['predicted'][-1]
+                P, last = 0, -1
+                for x in inner:
+                    if x != last:
+                        P += int(np.sum(np.abs(r.markov_random_fields[x]) > 2e-5))
+                        last = x
+                ll = 0.0
+                for kk in range(c['k']):
+                    th = r.markov_random_fields[kk]
+                    ll += np.linalg.slogdet(th)[1] - np.trace(th @ rounds[-1]['tasks'][kk]['cov'])
+                want = P * np.log(len(inner)) - 2 * ll
+                if abs(want - r.bayesian_information_criterion) > 1e-8 * max(1.0, abs(want)):
+                    bad.append(('C16 BIC is not P ln T - 2 sum(logdet - tr(Theta S)) with S the covariance each cluster was fitted to',
+                                '%.10g reported, %.10g by definition' % (r.bayesian_information_criterion, want)))
+            for what, detail in bad:
+                fails.append(dict(what='phase-trace:' + what, detail=detail, input=dict(seed=seed, **c)))
+    finally:
+        main_loop._init_task_pool = orig['pool']
+        graphical_lasso.optimize_markov_random_fields = orig['opt']
+        graphical_lasso._setup_optimization_task = orig['task']
+        cluster_maintenance.repopulate_empty_clusters = orig['rep']
+        cluster_label_assignment.predict_cluster_labels = orig['pred']
+        cluster_maintenance.update_all_cluster_statistics = orig['stats']
+    return dict(kind='bounded', name='phase_trace', cases=cases, runs_that_did_not_complete=incomplete, failing=fails,
+                bound='%d completed synthetic runs (<=130 rows, <=2 sensors, W<=3, K<=5, beta in {0,2,25,400,1e6}, iteration_limit in {1,2,3,6,10}, '
+                      'both covariance estimators, scalar and matrix lambda) with an in-process pool; phases observed through wrappers, library code untouched' % cases)
+
+
 # ------------------------------------------------------------------ C14: reproducibility / pool size
 def _one_run(args):
     nproc, mp_on, seed, extra_first = args
@@ -407,7 +567,7 @@ def fault_injection(tier, seed):
 
 
 CHECKS = dict(admm=admm, end_to_end=end_to_end, reproducibility=reproducibility, jit_differential=jit_differential,
-              readonly_inputs=readonly_inputs, fault_injection=fault_injection)
+              readonly_inputs=readonly_inputs, fault_injection=fault_injection, phase_trace=phase_trace)
 
 if __name__ == '__main__':
     name, tier, seed = sys.argv[1], sys.argv[2], int(sys.argv[3])
